@@ -704,7 +704,20 @@ def _run_oracles(chk: C.Check, r: Any, stats: dict[str, int]) -> None:
     denv_names = sorted(env_pair({}).filters)
     denv_names = sorted(set(denv_names) | set(env_pair({}, shopify=True).filters))
     denvs = {(cfg, sp): env_pair(G2.EXPR_TEMPLATES, cfg, sp) for cfg in G2.CONFIGS for sp in (False, True)}
-    for n, (src, data) in enumerate(G2.data_argument_cases(r, chk.tier, denv_names)):
+    import inspect
+
+    fkw: dict[str, list[str]] = {}
+    for fenv in (env_pair({}), env_pair({}, shopify=True)):
+        for fname, func in fenv.filters.items():
+            try:
+                params = inspect.signature(func).parameters.values()
+            except (TypeError, ValueError):
+                continue
+            kws = [p.name for p in params if p.kind is p.KEYWORD_ONLY and p.name not in ("context", "environment", "env")]
+            if kws:
+                fkw[fname] = sorted(set(fkw.get(fname, [])) | set(kws))
+    stats["filter_keyword_parameters"] = sum(len(v) for v in fkw.values())
+    for n, (src, data) in enumerate(G2.data_argument_cases(r, chk.tier, denv_names, fkw)):
         stats["shaped_data_cases"] = stats.get("shaped_data_cases", 0) + 1
         run_one(chk, denvs[(G2.CONFIGS[n % len(G2.CONFIGS)], n % 2 == 0 or "tablerow" in src)], src, data, stats,
                 {"source": src, "data": safe_repr(data)[:600], "stream": "shaped data x argument positions"})
